@@ -42,6 +42,7 @@ def make_timer(cx, running=True, prefix="tk_"):
     dur = z3.If(stop >= start, stop - start, start - stop)
     tk.attrs["Nsteps"] = dur / dt  # floor: both non-negative, dt > 0
     tk.attrs["time"] = time_at(tk, step)  # class invariant
+    tk.attrs["dtsec"] = z3.ToReal(dt)  # seconds as a float (proved by TKInit)
     return tk
 
 
@@ -75,10 +76,11 @@ class TKInit(Spec):
         t["reference_time"] = a.reference if self.with_reference else t["min_time"]
         dur = z3.If(a.stop >= a.start, a.stop - a.start, a.start - a.stop)
         t["Nsteps"] = dur / a.dt
+        t["dtsec"] = z3.ToReal(a.dt)
         return None
 
     def compare_roots(self, a, b, result):
-        keys = ["start_time", "stop_time", "dt", "time_reversal", "step", "time", "min_time", "max_time", "reference_time", "Nsteps"]
+        keys = ["start_time", "stop_time", "dt", "time_reversal", "step", "time", "min_time", "max_time", "reference_time", "Nsteps", "dtsec"]
         out = []
         for k in keys:
             x = a.self.attrs.get(k, "<attribute missing>")
